@@ -160,6 +160,8 @@ impl Module {
     /// they're actually passive or not, and that property is checked during
     /// validation.
     pub(crate) fn reserve_data(&mut self, count: u32, ids: &mut IndicesToIds) {
+        #[cfg(walrus_verif)]
+        crate::verif::emit("interpret", "datacount", -1, -1);
         log::debug!("reserving space for {} data segments", count);
         for _ in 0..count {
             ids.push_data(self.data.arena.alloc_with_id(|id| Data {
@@ -179,6 +181,8 @@ impl Module {
         section: wasmparser::DataSectionReader,
         ids: &mut IndicesToIds,
     ) -> Result<()> {
+        #[cfg(walrus_verif)]
+        crate::verif::emit("interpret", "data", -1, -1);
         log::debug!("parse data section");
         let preallocated = self.data.arena.len() > 0;
         for (i, segment) in section.into_iter().enumerate() {
